@@ -10,6 +10,15 @@ import (
 // TestVerif is the single entry point of the worker binary. The orchestrator
 // (/verif/vcheck) passes a Job in VERIF_JOB.
 func TestVerif(t *testing.T) {
+	if p := os.Getenv("VERIF_PLAIN"); p != "" {
+		src, err := emitPlain(p)
+		if err != nil {
+			fmt.Printf("VERIF-PLAIN-ERROR %v\n", err)
+			return
+		}
+		fmt.Printf("VERIF-PLAIN-BEGIN\n%sVERIF-PLAIN-END\n", src)
+		return
+	}
 	raw := os.Getenv("VERIF_JOB")
 	if raw == "" {
 		t.Skip("VERIF_JOB not set")
